@@ -31,6 +31,7 @@ PLAN = {
     "C08": [
         item("h_stream", "c08_ans", 1_600_000, 48_000_000, max_len=(1024, 8192)),
         item("h_stream", "c08_range", 1_600_000, 48_000_000, max_len=(1024, 8192)),
+        item("h_symbol", "c16_bits", 800_000, 24_000_000, param=8, max_len=(1024, 8192)),
     ],
     "C11": [item("h_stream", "c11_suffix", 1_600_000, 64_000_000, max_len=(2048, 2048))],
     "C12": [
@@ -39,6 +40,8 @@ PLAN = {
     ],
     "C13": [item("h_chain", "c13_chain", 2_400_000, 64_000_000, max_len=(1024, 8192))],
     "C14": [item("h_chain", "c14_chain", 2_400_000, 64_000_000, max_len=(1024, 8192))],
+    "C15": [item("h_symbol", "c15_huffman", 800_000, 24_000_000, max_len=(2048, 16384))],
+    "C16": [item("h_symbol", "c16_bits", 2_400_000, 64_000_000, param=16, max_len=(1024, 8192))],
 }
 
 CHAIN_GRID = ("chain-coder grid (Word/State: precisions, switchable by change_precision): u8/u16: 8,3,1; u8/u32: 8,5,1; u8/u64: 8,4; "
@@ -95,6 +98,19 @@ RULES = {
            "oracle 1: symbol i == model_i(chunk_i) with chunk_i and the out-of-data index from an independent bit-stack model of the "
            "chunking; oracle 2: replacing model j / flipping the mask inside chunk j (bit provenance from the chunk model) changes at most "
            "symbol j and never the out-of-data index; " + CHAIN_GRID + "; non-trivial = >=2 symbols decoded",
+    "C15": "case = (weight type u8|u32|u64|f32|f64, n in 1..40 (quick) / 1..600 (thorough), style {ties and zeros, powers of two, "
+           "Fibonacci-like, nearly equal, one dominant, random}, float tables scaled exactly by 2^k (k down to -1000) or perturbed by one "
+           "epsilon); checks: prefix-free, Kraft equality, codewords bit-identical to a textbook construction with the documented tie "
+           "rule, optimum found by exhaustive enumeration of all complete length profiles for n <= 9 (exact weights), prefix == reversed "
+           "suffix, decoder tree decodes every codeword and consumes exactly its length, truncated codewords and out-of-alphabet symbols "
+           "rejected, NaN rejected; non-trivial = n >= 3",
+    "C16": "case = (word type u8|u16|u32|u64|usize, stack or queue coder, script of <=80 / <=600 ops over {write 1..12 bits, read_bit, "
+           "encode_symbol / decode_symbol with Exp-Golomb<u8|u16|u32|u64> (values from {0,1,MAX-1,MAX,2^k-1,2^k,random}) or a generated "
+           "Huffman codebook, len/is_empty, get_compressed guard, into_compressed -> from_compressed (stack), iter, into_decoder, "
+           "queue: QueueDecoder over the export reading bits or symbols, into_decoder, into_overshooting_iter}); oracle = Vec<bool> with "
+           "symbol marks, independent Exp-Golomb codeword construction, exports compared with the little-endian packing of the bits "
+           "(+terminating 1 for the stack, zero padding for the queue); non-trivial = >= 2 words of bits, or a re-import with a set data "
+           "bit below the terminator",
 }
 
 LEVEL_TEXT = {
@@ -108,6 +124,8 @@ LEVEL_TEXT = {
     "C12": "property-based search checking the analytic size bound at every prefix of generated messages",
     "C13": "stateful property-based decode/re-encode round-trip search over chain-coder scripts with precision changes and all three re-import ways",
     "C14": "differential (independent chunk model) and metamorphic (model replacement, bit flips) property-based search",
+    "C15": "property-based search over weight vectors with a reference construction, exhaustive-optimum oracle for small alphabets and validity predicates",
+    "C16": "stateful model-based property-based search over bit-coder scripts against a Vec<bool> model and the documented word packing",
 }
 
 TECHNIQUE = {
@@ -121,4 +139,6 @@ TECHNIQUE = {
     "C12": "property-based testing of an analytic invariant over every prefix of generated messages",
     "C13": "stateful property-based round-trip testing (decode script -> export/re-import -> reverse re-encode)",
     "C14": "differential + metamorphic property-based testing against an independent chunk model",
+    "C15": "property-based testing with reference model (textbook Huffman + exhaustive optimum) and validity predicates",
+    "C16": "stateful model-based property-based testing (op scripts vs Vec<bool> reference)",
 }
